@@ -3,7 +3,7 @@ from checks.gencommon import *
 def run(tier):
     return run_gen("C01", tier, "^VerifC01", params_q={"D": 2, "L": 2, "S": 2, "B": 3}, params_t={"D": 3, "L": 3, "S": 3, "B": 4},
                    ladder=[{"B": 2}, {"B": 2, "D": 1}, {"B": 1, "D": 1}],
-                   optsets=("full",) if tier == "quick" else ("full", "default"), r_quick=(), r_thorough=R_THOROUGH,
+                   optsets=("full", "default"), prim="^VerifC33(StringWriteLen|StringRoundTrip|StringBytesRoundTrip|NatRoundTrip|PrimRoundTrip)$", r_quick=(), r_thorough=R_THOROUGH,
                    bounds={"value": "arbitrary value of the Go type: every scalar/mask symbolic over its full range; slices/maps <= L elements and strings <= S symbolic bytes with the SUM of all lengths <= B; recursion depth <= D"},
                    outside=["larger values (string length classes are decided in C33)", "deeper recursion", "schemas outside the corpus", "--split-internal layout"],
                    assumptions=["unions are built through their generated ResetTo* API (only valid variant indices)"])
